@@ -12,3 +12,11 @@ for f in kasumi_f8 kasumi_f9 snow3g_test_f8_vectors snow3g_test_f9_vectors zuc_e
 done
 cp ref/admit/selftest_wireless.cc ref/wireless.cc ref/wireless.h ref/prims.h "$T/"
 (cd "$T" && g++ -std=c++17 -O1 -w -I. selftest_wireless.cc wireless.cc *.o -o selftest && ./selftest)
+# SM3 compression function used for the HMAC-SM3 pad states (C11)
+T2=$(mktemp -d /dev/shm/admit2.XXXXXX)
+cat > "$T2/t.cc" <<'EOT'
+#include "prims.h"
+#include <stdio.h>
+int main() { bool ok = ref_sm3_selfcheck(); printf("ref_sm3_compress + hand padding vs libcrypto SM3 (7 lengths): %s\n", ok ? "PASS" : "FAIL"); return ok ? 0 : 1; }
+EOT
+g++ -std=c++17 -O1 -w -Iref "$T2/t.cc" ref/prims.cc -lcrypto -o "$T2/t" && "$T2/t"; rc=$?; rm -rf "$T2"; exit $rc
